@@ -85,6 +85,26 @@ def payloads_reader_ok(rp):
     ok_loop = False
     for lp in loops:
         reads = [c for g, c in flow.ordered_calls(lp["body"], lambda x: x.get("k") == "MethodCall" and (declared(x) or "").startswith("byteorder::ReadBytesExt::read_"))]
+        if not reads:
+            # `for entry in buf.chunks_exact(3) { code = entry[0]; size = u16::from_be_bytes([entry[1], entry[2]]); sizes[code] = .. }`
+            src = strip(lp["iter"])
+            if src.get("k") == "MethodCall" and src["method"] == "chunks_exact" and tir.lit_int(src["args"][0]) == 3 and lp["pat"].get("k") == "Bind":
+                eid = lp["pat"]["id"]
+                benv = tir.LetEnv(lp["body"])
+
+                def elem(e):
+                    e = strip(e)
+                    return tir.lit_int(e["index"]) if e.get("k") == "Index" and strip(e["base"]).get("id") == eid else None
+                be = [x for x in tir.walk(lp["body"]) if x.get("k") == "Call" and (declared(x) or "").endswith("from_be_bytes") and (x.get("ty") == "u16")]
+                size_ok = len(be) == 1 and strip(be[0]["args"][0]).get("k") == "Array" and [elem(y) for y in strip(be[0]["args"][0])["elems"]] == [1, 2]
+                for a in tir.walk(lp["body"]):
+                    if a.get("k") == "Assign" and strip(a["l"]).get("k") == "Index":
+                        ix = strip(strip(a["l"])["index"])
+                        while ix.get("k") == "Cast":
+                            ix = strip(ix["e"])
+                        if elem(benv.resolve(ix, peel=True)) == 0 and size_ok:
+                            ok_loop = True
+            continue
         if [r["method"] for r in reads] != ["read_u8", "read_u16"] or L.endian_of(reads[1]) != "BigEndian":
             continue
         benv = tir.LetEnv(lp["body"])
